@@ -3,6 +3,7 @@
 import json, subprocess
 props = [json.loads(l) for l in open('/verif/properties.jsonl')]
 T = {
+ "C17": ("fault_enumeration", "deterministic simulation: corrupt_at_rest fault enumeration on directory regions (pattern space of short LFN runs, per-byte sweeps, seeded slot soup), guarded read-only session vs independent slot decoder; run in the alloc and the fixed-buffer build"),
  "C15": ("exploration", "deterministic simulation: name-centred scripts on the engine (create/rename sinks into populated directories, lookups by case variants, alias, near misses) vs tree model and raw image; code-point and length sweeps hosted on the simulator"),
  "C16": ("exploration", "deterministic simulation: colliding directory populations (6-char form, 2-char+hash form, removals) with raw short-name legality / uniqueness / LFN-checksum checks by the independent decoder after every call"),
  "C01": ("exploration", "deterministic simulation: seeded multi-client namespace histories on SimDisk vs in-memory tree model + independent raw decode, benign device faults (EINTR, short reads/writes)"),
@@ -44,7 +45,7 @@ for p in props:
 hook = subprocess.check_output(['git','-C','/repo','log','--format=%h','--grep=verif hook']).decode().split()
 m = {
  "version": 1,
- "setup_cmd": "cd /verif/sim && CARGO_NET_OFFLINE=true cargo build --release --offline",
+ "setup_cmd": "cd /verif/sim && CARGO_NET_OFFLINE=true cargo build --release --offline && cargo build --release --offline --no-default-features --features f_unicode --target-dir target-noalloc && cargo build --release --offline --no-default-features --features f_alloc --target-dir target-nounicode",
  "hooks": {"guard": "fatfs_verif", "enable": "RUSTFLAGS=\"--cfg fatfs_verif\" (set in /verif/sim/.cargo/config.toml)", "baseline_off_cmd": "cd /repo && cargo test --workspace --no-fail-fast --offline", "source_commits": hook, "add_only": True},
  "engines": [{"name": "fatsim", "path": "/verif/sim", "serves_properties": sorted(T), "kind_free_text": "deterministic simulator: SimDisk (fault-injecting sparse block device with write log), SimClock, seeded multi-client scheduler, tree model, independent FAT decoder, crash-image builder"}],
  "checks": checks,
